@@ -16,7 +16,8 @@
  *   n,s,<comps>,<attr>;<attr>..   new request: set attributes, valid bits, full reset
  *   N,s,<comps>,<attr>;<attr>..   next request parsed: set attributes and valid bits only (the
  *                     reset is left to http_response_config(), op h, as in the server)
- *   s                 h2_init_stream(con->request, con) (+ copy slot 0 attributes)
+ *   s                 h2_init_stream(con->request, con): new request_st (no request attributes yet;
+ *                     socket and peer address as slot 0), cache + valid bits copied by the real code
  *   p,s,012           request_config_reset + config_patch_config (server.name/tag/max-request-size)
  *   p,s,345           mod_setenv_patch_config (set-response-header/add-environment/set-environment)
  *   h,s               start of response processing for the (next) request: request_config_reset() as
@@ -350,20 +351,12 @@ static int run_op(char *op) {
         r = h2_init_stream(h2r, &con);
         s = nslot++;
         slot[s] = r;
-        /* the new stream starts with the attributes of the connection-level request */
+        /* the new request_st has no request attributes of its own yet; what it reaches through
+         * r->con (listening socket, peer address: kept per slot by this harness) is shared */
         sock_tok[s] = buffer_init(); copybuf(sock_tok[s], sock_tok[0]);
         slot_addr[s] = slot_addr[0];
         copybuf(&slot_addrbuf[s], &slot_addrbuf[0]);
         r->dst_addr = &slot_addr[s]; r->dst_addr_buf = &slot_addrbuf[s];
-        copybuf(&r->uri.path, &h2r->uri.path);
-        copybuf(&r->uri.authority, &h2r->uri.authority);
-        copybuf(&r->uri.query, &h2r->uri.query);
-        copybuf(&r->uri.scheme, &h2r->uri.scheme);
-        r->http_method = h2r->http_method;
-        for (uint32_t j = 0; j < h2r->rqst_headers.used; ++j) {
-            const data_string *ds = (const data_string *)h2r->rqst_headers.data[j];
-            http_header_request_set(r, ds->ext, BUF_PTR_LEN(&ds->key), BUF_PTR_LEN(&ds->value));
-        }
         printf(" s%d,", s);
         for (const char *c = "SUHIQCMR"; *c; ++c)
             if (r->conditional_is_valid & (1u << comp_of(*c))) fputc(*c, stdout);
